@@ -304,6 +304,20 @@ def probe_check(tier, seed, stats):
     stats["programs"] += 1
     stats["samples"].append({"probes": rustc[:2] + rustc[-2:]})
     stats["nontrivial"] |= {l.encode() for l in rustc}
+    # the property itself, asked of rustc (independent of the model): T: Send => handles Send+Sync, futures/stream Send; T: !Send => nothing
+    wrong = []
+    for l in rustc:
+        t = l.split(" ")
+        if len(t) != 5:
+            continue
+        name, send_t, _sync_t, tr, ans = t
+        handle = name in ("Sender", "AsyncSender", "Receiver", "AsyncReceiver")
+        if send_t == "true" and (handle or tr == "send") and ans != "true":
+            wrong.append(f"rustc: {name}<T> is not {tr.capitalize()} for a T that is Send (T: Sync = {_sync_t})")
+        if send_t == "false" and ans != "false":
+            wrong.append(f"rustc: {name}<T> is {tr.capitalize()} for a T that is not Send")
+    if wrong:
+        return [{"kind": "probe", "seed": seed, "failures": wrong[:6]}]
     if p.returncode != 0 or len(model) != 56 or model != rustc:
         diff = [f"model: {m} | rustc: {r}" for m, r in zip(model, rustc) if m != r][:6]
         return [{"kind": "probe", "seed": seed, "failures": diff or [f"probes exited {p.returncode} / table sizes {len(model)} vs {len(rustc)}: {p.stdout[-300:]}"]}]
